@@ -231,6 +231,11 @@ def gen_cases(tier, seed):
     for i, (files, refs) in enumerate(filesets):
         cases.append(dict(out='made files\n', err='', code=0, files=files, refs=refs, script='test_f%d' % i, iterations=2))
     cases.append(dict(out='fails\n', err='bad\n', code=3, files={}, refs=[], script='test_x1', iterations=2))
+    # an output file called STDOUT next to an unterminated stdout: the second run's reference must not be clobbered
+    cases.append(dict(out='line one\nno newline at end', err='', code=0, files={'STDOUT': 'a file called STDOUT\n'},
+                      refs=['STDOUT'], script='test_so', iterations=2))
+    cases.append(dict(out='x\n', err='warn', code=0, files={'stderr': 'a file called stderr\n'},
+                      refs=['stderr'], script='test_se', iterations=3))
     cases.append(dict(out='one\n', err='', code=0, files={}, refs=[], script='test_i1', iterations=1))
     cases.append(dict(out='three\n', err='', code=0, files={'o.txt': 'x\n'}, refs=['o.txt'], script='test_i3', iterations=3))
     cases.append(dict(out='nostdout\n', err='e\n', code=0, files={}, refs=[], script='test_ns', iterations=2, no_stdout=True))
